@@ -679,6 +679,66 @@ fn run(case: &Case, out: &mut Out) {
                 }
                 out.obs(&obs);
             }
+            "trl" => {
+                // the real pkawa::handle_trailer on an HPACK block built from (kind, name length, value length) triples
+                use sozu_lib::protocol::mux::verif_hdr::handle_trailer;
+                let (max_list, max_fields, es, length_framed) = (a[0].n() as u32, a[1].n() as u32, a[2].n() == 1, a[3].n() == 1);
+                let mut pool = sozu_lib::pool::Pool::with_capacity(1, 2, 16393);
+                let mut kawa = kawa::Kawa::new(kawa::Kind::Request, kawa::Buffer::new(pool.checkout().expect("checkout")));
+                kawa.body_size = if length_framed { kawa::BodySize::Length(0) } else { kawa::BodySize::Chunked };
+                let mut enc = loona_hpack::Encoder::new();
+                let mut block = vec![];
+                let mut sent = 0usize;
+                let mut total = 0usize;
+                for (i, t) in a[4..].chunks(3).enumerate() {
+                    if t.len() < 3 {
+                        break;
+                    }
+                    let (kind, nl, vl) = (t[0].n(), t[1].n() as usize, t[2].n() as usize);
+                    let mut name: Vec<u8> = match kind {
+                        2 => b"x-real-ip".to_vec(),
+                        _ => {
+                            let mut n = format!("n{i}").into_bytes();
+                            n.resize(nl.max(1), b'a');
+                            n.truncate(nl.max(1));
+                            n
+                        }
+                    };
+                    if kind == 1 {
+                        name[0] = b':';
+                    }
+                    if kind == 3 {
+                        name[0] = b'A';
+                    }
+                    let value = vec![b'v'; vl];
+                    total += name.len() + value.len() + 32;
+                    sent += 1;
+                    enc.encode_header_into((&name[..], &value[..]), &mut block).unwrap();
+                }
+                let mut dec = loona_hpack::Decoder::new();
+                let before = kawa.blocks.iter().filter(|b| matches!(b, kawa::Block::Header(_))).count();
+                let r = handle_trailer(&mut kawa, &block, es, &mut dec, max_list, max_fields, false);
+                let stored = kawa.blocks.iter().filter(|b| matches!(b, kawa::Block::Header(_))).count() - before;
+                match r {
+                    Ok(()) => {
+                        // independent oracle: what one accepted trailer block may make the proxy hold
+                        let budget = (max_list as usize).min(8192);
+                        if total > budget || sent > max_fields as usize || stored > sent {
+                            out.viol("trailer-over-budget", &format!("accepted a trailer block of {sent} fields / {total} accounted octets (stored {stored}) with a budget of {budget} octets and {max_fields} fields"));
+                        }
+                        if !es {
+                            out.viol("rfc-class", "a trailer block without END_STREAM was accepted (RFC 9113 8.1)");
+                        }
+                        out.obs(&[ts("ok"), tn(stored)]);
+                    }
+                    Err((e, global)) => {
+                        if global {
+                            out.viol("trailer-error-scope", &format!("a well-formed HPACK trailer block was answered with the connection error {e:?}"));
+                        }
+                        out.obs(&[ts("err"), ts(e.as_str())]);
+                    }
+                }
+            }
             "snew" => {
                 let ratio = a[0].n() as u32;
                 let pool = Rc::new(RefCell::new(Pool::with_capacity(2, 200, 256)));
